@@ -17,7 +17,7 @@ func init() { core.Register("C03", run) }
 
 func run(c *core.Ctx) {
 	evilreplay.Quiet()
-	c.Assume("a cached session was established under the same local policy as the handshake that resumes it (resumption across policies is C05/C06)")
+	c.Assume("a cached session was established under the same local AUTHENTICATION policy as the handshake that resumes it (resumption across authentication policies is C05/C06); the encryption level of the resuming handshake is the same or REQUIRED where the establishing one was PREFERRED/OPTIONAL, and the establishing handshake may itself have run against a peer that kept the key from being agreed")
 	c.Assume("the reported method is compared with what ran only when the handshake reports Authentication=true; with Authentication=false the NegotiatedAuth field is taken as the negotiated candidate, not a claim")
 	c.Assume("the only authentication exchange the scripted peer completes is CLAIMTOBE; PASSWORD / KERBEROS are listed, offered and selected but never complete; forged method internals are C11/C18")
 	c.Assume("ECDH P-256, HKDF, AES-GCM, SHA-256 of the Go standard library are correct; cryptography is symbolic in the model")
@@ -49,6 +49,7 @@ func run(c *core.Ctx) {
 	st := evilreplay.ReplayAll(c, groups)
 	c.Set("replay_wall_s", time.Since(t0).Seconds())
 	c.Set("scenarios", st.Groups)
+	c.Set("scenario_executions_planned", st.Jobs)
 	c.Set("scenarios_executed", st.Executed)
 	c.Set("handshakes_succeeded", st.Success)
 	c.Set("handshakes_aborted", st.Aborts)
@@ -85,5 +86,5 @@ func run(c *core.Ctx) {
 		c.Add("repo_test_lifecycle_groups", int64(len(groups)))
 		ltrace.Validate(c, groups, "repo-tests", func(e ltrace.Event) bool { return e["ev"] != "Dispatch" })
 	}
-	c.Set("rule", "scenario = (role, 4x4 own policy [+ integrity-only REQUIRED in thorough], own method list, honest peer level, fresh/resumed + session kind, set of deviation switches), every one enumerated by TLC from HandshakeEvil.tla; each scenario is ONE real handshake of security.Authenticator against the scripted peer (two for resumed: establish, resume) followed by one application message; the projected outcome must be a terminal state the specification allows for that scenario; distinct = distinct scenario; all executed scenarios are non-trivial")
+	c.Set("rule", "scenario = (role, 4x4 own policy [+ integrity-only REQUIRED in thorough], own method list, honest peer level, fresh/resumed + session kind + how the session was established (honest / OmitECDH / TruncateECDH / NoCommonCipher, own encryption level then), set of deviation switches), every one enumerated by TLC from HandshakeEvil.tla; each scenario is ONE real handshake of security.Authenticator against the scripted peer (two for resumed: establish, resume) followed by one application message; a scenario whose peer answers NO is executed once per rendering of that answer (literal, attribute omitted, lower case, boolean, garbage); the projected outcome must be a terminal state the specification allows for that scenario; distinct = distinct scenario; all executed scenarios are non-trivial")
 }
